@@ -100,6 +100,7 @@ fn search(contract: &str, seed: u64, budget: u64) -> i32 {
     if c == "bisync_crash" { return bisync_w::crash_search(false, budget > 60); }
     if c == "serve_crash" { return serve_w::crash_search(false, budget > 60); }
     if c == "second_run" { return oneway_w::noop_search(false); }
+    if c == "delivers_plan" { return oneway_w::plan_search(false); }
     if c == "hub_sync" || c.ends_with("::hub_sync") { return hub_w::search(false); }
     if c.ends_with("run_bisync") || c == "bisync" || c.ends_with("apply") || c.ends_with("copy_atomic") || c.contains("Archive::") {
         return bisync_w::search(c, false);
@@ -137,6 +138,7 @@ fn run(w: &str) -> i32 {
         "serve" => serve_w::run_w(w),
         "oneway" => oneway_w::run_w(w),
         "oneway-noop" => oneway_w::run_noop(w),
+        "oneway-plan" => oneway_w::run_plan(w),
         "bisync" => bisync_w::run_w(w),
         "bisync-trace" => bisync_w::run_trace(w),
         "bisync-crash" => bisync_w::run_crash(w),
@@ -169,6 +171,7 @@ fn twin(name: &str, seed: u64, budget: u64) -> i32 {
         "serve_crashes" => serve_w::crash_search(true, budget > 60),
         "hub_sync_runs" => hub_w::search(true),
         "second_run_noop" => oneway_w::noop_search(true),
+        "delivers_plan" => oneway_w::plan_search(true),
         "bisync_histories" => bisync_w::search_t("bisync", true, seed, budget),
         "signature_generate" => engine_w::twin_signature_generate(seed, budget),
         "signature_structure" => engine_w::twin_signature_structure(seed, budget),
